@@ -44,10 +44,112 @@ fn random_history(cfg: &WCfg, rng: &mut Rng) -> (Vec<WOp>, usize) {
     (ops, declared)
 }
 
+/// true when `b` is the signature followed by whole chunks (the next byte would start a chunk)
+fn at_chunk_boundary(b: &[u8]) -> bool {
+    if b.len() < 8 { return false; }
+    let mut i = 8;
+    while i < b.len() {
+        if i + 12 > b.len() { return false; }
+        let len = u32::from_be_bytes([b[i], b[i + 1], b[i + 2], b[i + 3]]) as usize;
+        i += 12 + len;
+    }
+    i == b.len()
+}
+
+/// Streaming histories in which the caller RETRIES a write / flush that failed because of a transient sink failure.
+/// When the failure hit before any byte of a chunk was accepted (chunk boundary) nothing is torn, so once every failed call has
+/// been retried successfully and the final finish() returns Ok, the sink must hold a complete stream that decodes to the pixels written.
+fn retry_cases(o: &mut Out, rng: &mut Rng, thorough: bool) {
+    use std::io::Write;
+    for k in 0..(if thorough { 600 } else { 60 }) {
+        let mut cfg = random_cfg(rng, Some(false));
+        cfg.w = rng.range(1, 12) as u32;
+        cfg.h = rng.range(1, 9) as u32;
+        let bits = crate::refimpl::samples(cfg.color) * cfg.depth as usize;
+        let rowlen = (cfg.w as usize * bits + 7) / 8;
+        let data = rng.bytes(rowlen * cfg.h as usize);
+        let size = *rng.pick(&[1usize, 5, 16, 64, 4096]);
+        let part = *rng.pick(&[1usize, 3, rowlen, data.len()]);
+        let short = if k % 3 == 0 { 3 } else { 0 };
+        // returns (every failed call was retried with success, final finish Ok, number of API calls that returned Err)
+        let history = |sink: Sink| -> Result<(bool, bool, usize), String> {
+            guarded(|| {
+                let mut e = png::Encoder::new(sink.clone(), cfg.w, cfg.h);
+                e.set_color(color_of(cfg.color));
+                e.set_depth(depth_of(cfg.depth));
+                if let Some(p) = &cfg.palette { e.set_palette(p.clone()); }
+                set_compression(&mut e, cfg.compression);
+                e.set_filter(filter_of(cfg.filter));
+                let mut w = match e.write_header() { Ok(w) => w, Err(_) => return (false, false, 1) };
+                let mut all_retried = true;
+                let mut errs = 0usize;
+                {
+                    let mut sw = match w.stream_writer_with_size(size) { Ok(s) => s, Err(_) => return (false, false, 1) };
+                    let mut pos = 0;
+                    while pos < data.len() {
+                        let end = (pos + part).min(data.len());
+                        match sw.write(&data[pos..end]) {
+                            Ok(0) => return (false, false, errs),
+                            Ok(n) => pos += n,
+                            Err(_) => { errs += 1; match sw.write(&data[pos..end]) { Ok(n) if n > 0 => pos += n, _ => return (false, false, errs + 1) } }
+                        }
+                    }
+                    if sw.flush().is_err() { errs += 1; if sw.flush().is_err() { return (false, false, errs + 1); } }
+                    if sw.finish().is_err() { all_retried = false; errs += 1; }
+                }
+                let fin = w.finish().is_ok();
+                if !fin { errs += 1; }
+                (all_retried, fin, errs)
+            })
+        };
+        let sink0 = Sink::new(short, None, false);
+        o.mark(&format!("retry {:?} size={} part={} no-failure", cfg, size, part));
+        let _ = history(sink0.clone());
+        let total = sink0.0.borrow().calls;
+        let idx: Vec<usize> = if total <= 60 || thorough { (0..total).collect() } else { (0..60).map(|_| rng.below(total as u64) as usize).collect() };
+        for f in idx {
+            let sink = Sink::new(short, Some(f), true);
+            o.mark(&format!("retry {:?} size={} part={} fail-once-at={}", cfg, size, part, f));
+            let r = history(sink.clone());
+            o.direct_checks += 1;
+            let st = sink.0.borrow();
+            let detail = |why: &str| vec![("config", jstr(&format!("{:?}", cfg))), ("stream_buffer", size.to_string()), ("write_part", part.to_string()), ("sink_short_writes", short.to_string()),
+                ("sink_fails_once_at_call", f.to_string()), ("why", jstr(why)), ("accepted", jstr(&hex(&st.accepted))), ("pixels", jstr(&hex(&data)))];
+            match r {
+                Err(m) => o.violation(viol("writer-panicked", &format!("writer-panicked: {}", m.chars().take(50).collect::<String>()), detail(&m))),
+                Ok((retried, fin, errs)) => {
+                    let boundary = st.accepted_at_failure.map_or(false, |n| at_chunk_boundary(&st.accepted[..n]));
+                    o.count(&format!("retry.{}.{}", if boundary { "at-chunk-boundary" } else { "inside-a-chunk-or-header" }, if retried && fin { "finish-ok" } else { "not-recovered" }));
+                    o.distinct(&format!("retry-{}-{}-{}-{}", size, part.min(9), boundary, f.min(40)));
+                    if boundary && retried && fin && st.failures == 1 {
+                        let ok = match crate::validator::validate(&st.accepted) {
+                            Err(e) => Err(e),
+                            Ok(_) => {
+                                let mut d = png::Decoder::new(std::io::Cursor::new(&st.accepted[..]));
+                                d.set_transformations(png::Transformations::IDENTITY);
+                                match d.read_info() {
+                                    Err(e) => Err(format!("{:?}", e)),
+                                    Ok(mut rd) => { let mut buf = vec![0u8; rd.output_buffer_size()]; match rd.next_frame(&mut buf) { Ok(_) => if buf[..data.len()] == data[..] { Ok(()) } else { Err("decoded pixels differ from the pixels written".to_string()) }, Err(e) => Err(format!("{:?}", e)) } }
+                                }
+                            }
+                        };
+                        if let Err(why) = ok {
+                            // the sink failed but NO call returned Err: the failure was swallowed inside StreamWriter::finish / Drop (known finding)
+                            let class = if errs == 0 { "sink-failure-swallowed-after-StreamWriter-finish" } else { "finish-ok-after-retried-transient-failure-but-stream-incomplete" };
+                            o.violation(viol("finish-ok-but-stream-incomplete", class, detail(&why)));
+                        }
+                    }
+                }
+            }
+        }
+    }
+}
+
 pub fn run(a: &Args) {
     let mut o = Out::new(&a.out);
     let mut rng = Rng::new(a.seed);
     let thorough = a.tier == "thorough";
+    retry_cases(&mut o, &mut rng, thorough);
     for k in 0..(if thorough { 4000 } else { 260 }) {
         let mut cfg = random_cfg(&mut rng, None);
         cfg.validate = k % 2 == 0;
@@ -96,7 +198,9 @@ pub fn run(a: &Args) {
                 continue;
             }
             // Ok from the final finish (with no earlier error) means: the sink holds a complete stream ending in exactly one IEND
-            if (finish || into) && run.finish == "ok" && run.errors_before_finish == 0 {
+            // (parameter errors returned by earlier calls do not excuse anything: only histories in which the sink itself failed
+            //  and the failed call was not retried are left out - a torn chunk cannot be repaired by any later call)
+            if (finish || into) && run.finish == "ok" && (run.errors_before_finish == 0 || st.failures == 0) {
                 let complete = match parse_strict(bytes) {
                     Ok(ch) => !ch.is_empty() && &ch[ch.len() - 1].ty == b"IEND" && ch.iter().filter(|c| &c.ty == b"IEND").count() == 1,
                     Err(_) => false,
@@ -109,8 +213,9 @@ pub fn run(a: &Args) {
                     continue;
                 }
                 // with validation on, the number of images must match the declaration
-                if cfg.validate && plan.is_none() {
-                    let written = ops.iter().filter(|x| matches!(x, WOp::Image { .. })).count() + (into && matches!(ops.last(), Some(WOp::IntoStream { fraction: 4, .. }))) as usize;
+                if cfg.validate && plan.is_none() && run.errors_before_finish == 0 {
+                    // images whose call returned Ok (a refused image is not a written one)
+                    let written = run0.images.len();
                     if written != declared {
                         let streamed = into || ops.iter().any(|x| matches!(x, WOp::Image { stream: Some(_), .. }));
                         let class = if into && written < declared { "sequence-validation-skipped-by-into_stream_writer" }
